@@ -326,3 +326,11 @@ def instances(tier):
         out.append(unit_invariance_instance(kind, 2, 2, minus_one=True))
     out.append(gains_bounded_instance())
     return out
+
+
+_instances_before_simplex = instances
+
+
+def instances(tier):       # noqa: F811
+    from .common import simplex_lemma_instances
+    return _instances_before_simplex(tier) + simplex_lemma_instances('C04')
